@@ -713,6 +713,29 @@ func genC14(tier string, r *core.Rand) Plan {
 		}
 	}
 
+	// ---- a quiet link: more than a minute without any ARQ frame, then data
+	// (the ARQ timeout is 90 s; timers that run per frame have expired by then)
+	if nConn > 0 && len(t.Session) > 0 && r.Chance(0.02) {
+		quiet := r.Range(61_000_000, 200_000_000)
+		var evs []Ev
+		for i, n := 0, r.Range(1, 4); i < n; i++ {
+			e := g.arq(2000)
+			e.DelayUs = quiet
+			evs = append(evs, e)
+		}
+		t.Session[0] = append(evs, t.Session[0]...)
+		for i, st := range p.Steps {
+			if st.Op == "dial" || st.Op == "accept" {
+				for i+1 < len(p.Steps) && (p.Steps[i+1].Op == "dial" || p.Steps[i+1].Op == "accept") {
+					i++
+				}
+				rest := append([]Step{{Op: "sleep", DelayUs: 4*quiet + 5_000_000}}, p.Steps[i+1:]...)
+				p.Steps = append(p.Steps[:i+1:i+1], rest...)
+				break
+			}
+		}
+	}
+
 	// ---- backlog: more ARQ frames than the library queues (4096) arrive while
 	// the application is busy elsewhere; it comes back well within a minute
 	if nConn > 0 && len(t.Session) > 0 && r.Chance(0.004) {
